@@ -54,7 +54,7 @@ func VerifC14Include() {
 	diskSrc := "D[{{ v }}{{ s }}{{ q }}]"
 	cacheSrc := "C[{{ v }}{{ q }}{{ s }}]"
 	e := NewEngine()
-	state := nd.Choice(10)
+	state := nd.Choice(11)
 	want := ""
 	wantErr := false
 	switch state {
@@ -77,6 +77,14 @@ func VerifC14Include() {
 		nd.Assert(err == nil, "cache-parse")
 		_, err = e.ParseTemplateAndCache([]byte(cacheSrc), target, 1)
 		nd.Assert(err == nil, "cache-parse-again")
+		want = cacheSrc
+	case 10: // registered under another spelling of the same path, from a buffer the caller then reuses
+		buf := []byte(cacheSrc)
+		_, err := e.ParseTemplateAndCache(buf, filepath.Dir(target)+"/./"+filepath.Base(target), 1)
+		nd.Assert(err == nil, "cache-parse")
+		for i := range buf {
+			buf[i] = '#'
+		}
 		want = cacheSrc
 	case 9: // an empty file on disk is still the file: it takes precedence over cached source
 		nd.SetFile(target, "", 0)
